@@ -289,9 +289,16 @@ func ruleNoMatchRejects(e *Env, rule string, fns ...*ssa.Function) {
 										if bo, ok := rr.(*ssa.BinOp); ok {
 											if k, isC := flow.ConstInt(bo.Y); isC && k == 0 {
 												switch bo.Op {
-												case token.EQL:
+												case token.EQL, token.LEQ:
 													inner(bo, true, 0)
 												case token.NEQ, token.GTR:
+													inner(bo, false, 0)
+												}
+											} else if isC && k == 1 { // len(m) < 1, len(m) >= 1
+												switch bo.Op {
+												case token.LSS:
+													inner(bo, true, 0)
+												case token.GEQ:
 													inner(bo, false, 0)
 												}
 											}
